@@ -297,3 +297,86 @@ func checkSeekTables(p *Program, r *Report) {
 		r.floor("DT-DESCEND.descend", nDesc, 1, "descent iterations")
 	}
 }
+
+// READ-WIDTH: the table reader tells padded from unpadded blocks by looking at
+// the byte after the block (block[sz] in the block-level newBlockReader), and
+// steps to the next block by the table's block size when the block is padded.
+// That probe exists only if the bytes handed down are wider than the block
+// itself.  On every path of Reader.newBlockReader that opens a block, the read
+// that produced the bytes asked for the table's block size, or the table has
+// no block size, or it asked for the block's own size on a path where that
+// size exceeds the table's block size (an oversized log block, never padded).
+func checkReadWidth(p *Program, r *Report) {
+	f := p.MustFunc("(*Reader).newBlockReader")
+	fk := funcKey(f)
+	cfg := &simCfg{
+		Event:           map[string]bool{"(*Reader).getBlock": true, "newBlockReader": true},
+		Keep:            map[string]bool{"(*Reader).getBlock": true, "newBlockReader": true},
+		Pure:            map[string]bool{"extractBlockSize": true, "headerSize": true},
+		NoInlineDefault: true,
+	}
+	c, _ := runSim(p, f, cfg, nil)
+	recv := mk("param", fk+"."+f.Params[0].Name(), nil)
+	n := 0
+	bad := ""
+	var w []string
+	for _, s := range c.Samples {
+		if s.Kind != "ret" || s.Panic {
+			continue
+		}
+		var open *Term
+		var reads []*Term
+		var results []*Term
+		for i, e := range s.Events {
+			if e.Op != "ev" {
+				continue
+			}
+			switch e.Aux {
+			case "(*Reader).getBlock":
+				reads = append(reads, e)
+				if i+1 < len(s.Events) && s.Events[i+1].Op == "evret" {
+					results = append(results, s.Events[i+1].Args[0])
+				} else {
+					results = append(results, nil)
+				}
+			case "newBlockReader":
+				open = e
+			}
+		}
+		if open == nil {
+			continue
+		}
+		n++
+		// which read produced the bytes
+		var width *Term
+		for i, rd := range reads {
+			if res := results[i]; res != nil && res.Op == "tuple" && res.Args[0] == open.Args[0] {
+				width = rd.Args[2]
+			}
+		}
+		if width == nil {
+			bad = "the bytes handed to the block reader do not come from a read of this function"
+			w = witnessOf(p, s.St.trace)
+			continue
+		}
+		// the table's block size as this function sees it: the value it passes on
+		tbs := open.Args[2]
+		zero := tConst("0", nil)
+		switch {
+		case width == tbs && s.St.truth(tEq(tbs, zero)) != 1:
+		case s.St.truth(tEq(tbs, zero)) == 1:
+		case s.St.truth(tLt(tbs, width)) == 1:
+		default:
+			bad = "a block is opened from a read of " + width.String() + " bytes, which is neither the table's block size " + tbs.String() + " nor shown to exceed it: a full unpadded block is then taken for a padded one and the next block is looked for at the wrong offset"
+			w = witnessOf(p, s.St.trace)
+		}
+	}
+	_ = recv
+	key := fk + " / a block is opened from a read at least as wide as the table's block size"
+	if bad != "" {
+		r.violate("READ-WIDTH", key, p.pos(f.Pos()), bad, w)
+	} else {
+		r.ok("READ-WIDTH", key, fmt.Sprintf("%d opening paths: width = block size, no block size, or own size > block size", n))
+	}
+	r.floor("READ-WIDTH", n, 2, "paths of "+fk+" that open a block")
+}
